@@ -85,6 +85,11 @@ Live(st) == st.proc \in {"run", "stop"}
 Die(st, kind, v) == [st EXCEPT !.proc = "zombie", !.fk = kind, !.fv = v, !.pend = {}]
 Ignored(st, sig) == st.disp = "ignore" /\ sig \in {HUP, INT}
 
+\* Which of several pending fatal signals ends a continued child: the kernel hands out the lowest
+\* number first; the peer (dash) catches SIGINT and only then kills itself with it, so SIGINT
+\* loses against any other pending signal (probed: harness peer, all ordered pairs of 1,2,3,10,15).
+FirstPending(P) == IF P \ {INT} # {} THEN MinOf(P \ {INT}) ELSE INT
+
 \* a signal is sent to the child and takes effect (see the assumption above)
 Deliver(st, sig) ==
   IF ~Live(st) THEN st
@@ -92,7 +97,7 @@ Deliver(st, sig) ==
   ELSE IF sig = STOP THEN [st EXCEPT !.proc = "stop"]
   ELSE IF sig = CONT THEN
          IF st.proc = "stop"
-         THEN (IF st.pend # {} THEN Die(st, "sig", MinOf(st.pend)) ELSE [st EXCEPT !.proc = "run"])
+         THEN (IF st.pend # {} THEN Die(st, "sig", FirstPending(st.pend)) ELSE [st EXCEPT !.proc = "run"])
          ELSE st
   ELSE IF Ignored(st, sig) THEN st
   ELSE IF st.proc = "run" THEN Die(st, "sig", sig)
